@@ -2,3 +2,7 @@ import MaddyVerif.Props.C01
 import MaddyVerif.Props.C09
 import MaddyVerif.Props.C16
 import MaddyVerif.Props.C17
+import MaddyVerif.Props.C14
+import MaddyVerif.Props.C15
+import MaddyVerif.Props.C13
+import MaddyVerif.Props.C07
